@@ -10,6 +10,17 @@
 //@slice src/unc_text.cpp fn UncText::back
 //@slice src/unc_text.cpp fn UncText::pop_back
 void UncText::append(int ch) { m_chars.push_back(ch); }
+// append of a short literal (up to three characters), without a loop
+void UncText::append(const char *t)
+{
+   if (t[0] == 0) { return; }
+   m_chars.push_back(t[0]);
+   if (t[1] == 0) { return; }
+   m_chars.push_back(t[1]);
+   if (t[2] == 0) { return; }
+   m_chars.push_back(t[2]);
+   VASSERT(t[3] == 0, "model: a literal of at most three characters is appended");
+}
 extern "C" {
 //@slice src/output.cpp fn cmt_trim_whitespace
 void w_cmt_trim_whitespace(UncText *line, bool in_preproc) { cmt_trim_whitespace(*line, in_preproc); }
